@@ -22,7 +22,7 @@
 /* VERIF-UNIT
 {
  "name": "ht_dx_search_entry_256",
- "props": ["C10", "C06"],
+ "props": ["C10"],
  "level": "U/k",
  "tier": "quick",
  "harness": "h_search",
@@ -39,7 +39,7 @@
 /* VERIF-UNIT
 {
  "name": "ht_dx_search_entry_1k",
- "props": ["C10", "C06"],
+ "props": ["C10"],
  "level": "U/k",
  "tier": "thorough",
  "harness": "h_search",
@@ -56,7 +56,7 @@
 /* VERIF-UNIT
 {
  "name": "ht_dx_search_entry_4k",
- "props": ["C10", "C06"],
+ "props": ["C10"],
  "level": "U/k",
  "tier": "wip",
  "harness": "h_search",
@@ -66,7 +66,7 @@
  "unwind_reason": "binary search over at most (4096-8)/8 = 511 entries: at most 9 iterations; unwinding assertions on",
  "timeout": 900,
  "functions": ["lib/ext2fs/link.c:dx_search_entry"],
- "assumes": ["as ht_dx_search_entry_1k with a 4 KiB block"],
+ "assumes": ["NOT RUN TO COMPLETION (1 KiB needs 150 s, the cost grows about 10x per 4x block): kept wip", "as ht_dx_search_entry_1k with a 4 KiB block"],
  "native": false
 }
 */
@@ -106,10 +106,27 @@
 */
 /* VERIF-UNIT
 {
- "name": "ht_dx_lookup_128",
- "props": ["C10", "C06"],
+ "name": "ht_dx_lookup_64",
+ "props": ["C10"],
  "level": "U/k",
  "tier": "quick",
+ "harness": "h_lookup",
+ "defines": ["HX_BS=64", "EXT2_CUSTOM_MEMORY_ROUTINES"],
+ "sources": ["lib/ext2fs/csum.c"],
+ "unwind": 5,
+ "unwind_reason": "at most EXT4_HTREE_LEVEL = 3 index levels (loop over levels, dx_release); binary search over at most (64-8)/8 = 7 entries: at most 3 iterations; unwinding assertions on",
+ "timeout": 600,
+ "functions": ["lib/ext2fs/link.c:dx_lookup", "lib/ext2fs/link.c:dx_search_entry", "lib/ext2fs/link.c:load_logical_dir_block", "lib/ext2fs/link.c:dx_release", "lib/ext2fs/link.c:alloc_dx_frame", "lib/ext2fs/csum.c:__get_dx_countlimit"],
+ "assumes": ["SYMBOLIC BLOCKS OF 64 BYTES with ARBITRARY contents (smaller than a legal ext2 block; the code depends on the block size only through comparisons; 128 B: ht_dx_lookup_128, 256 B: ht_dx_lookup_256, 1 KiB: ht_dx_lookup_1k)", "stubs: ext2fs_get_mem hands out three distinct block-sized buffers or fails; ext2fs_free_mem records the release; ext2fs_bmap2 returns an arbitrary error / flags / physical block and records the logical block asked for; ext2fs_read_dir_block4 returns an arbitrary error and leaves arbitrary bytes in the buffer; ext2fs_dirhash2 returns an arbitrary error or an arbitrary hash and records the version it was asked for (the hash itself: proofs/htree/dirhash.c)", "superblock s_flags and feature words arbitrary; inode i_flags arbitrary", "a block 0 that csum.c:__get_dx_countlimit reads as a dx NODE (first rec_len == blocksize) is walked with entries at byte 8 although dx_lookup takes hash version / levels from byte 24 (kernel: always 24 + info_length): accepted here as an observation on corrupted directories, safety and the cover property are checked for it too"],
+ "native": false
+}
+*/
+/* VERIF-UNIT
+{
+ "name": "ht_dx_lookup_128",
+ "props": ["C10"],
+ "level": "U/k",
+ "tier": "thorough",
  "harness": "h_lookup",
  "defines": ["HX_BS=128", "EXT2_CUSTOM_MEMORY_ROUTINES"],
  "sources": ["lib/ext2fs/csum.c"],
@@ -124,7 +141,7 @@
 /* VERIF-UNIT
 {
  "name": "ht_dx_lookup_256",
- "props": ["C10", "C06"],
+ "props": ["C10"],
  "level": "U/k",
  "tier": "thorough",
  "harness": "h_lookup",
@@ -141,7 +158,7 @@
 /* VERIF-UNIT
 {
  "name": "ht_dx_lookup_1k",
- "props": ["C10", "C06"],
+ "props": ["C10"],
  "level": "U/k",
  "tier": "wip",
  "harness": "h_lookup",
@@ -151,7 +168,7 @@
  "unwind_reason": "3 index levels; binary search over at most 127 entries: at most 7 iterations; unwinding assertions on",
  "timeout": 1800,
  "functions": ["lib/ext2fs/link.c:dx_lookup", "lib/ext2fs/link.c:dx_search_entry", "lib/ext2fs/link.c:load_logical_dir_block", "lib/ext2fs/link.c:dx_release", "lib/ext2fs/link.c:alloc_dx_frame", "lib/ext2fs/csum.c:__get_dx_countlimit"],
- "assumes": ["blocks of 1024 bytes with arbitrary contents", "as ht_dx_lookup_256"],
+ "assumes": ["NOT RUN TO COMPLETION (256 B needs 7 min): kept wip", "blocks of 1024 bytes with arbitrary contents", "as ht_dx_lookup_256"],
  "native": false
 }
 */
